@@ -1114,7 +1114,10 @@ func Replay(u *Universe, h History, dir string) (res Result) {
 
 // Options select variations of a replay.
 type Options struct {
-	GapLimit uint32 `json:"gap"`
+	GapLimit  uint32 `json:"gap"`
+	FaultStep int    `json:"fault_step"`
+	FaultCall int64  `json:"fault_call"`
+	Seed      int64  `json:"seed"`
 }
 
 // Run dispatches on the replay mode ("" = plain conformance replay).
@@ -1122,6 +1125,12 @@ func Run(u *Universe, h History, dir, mode string, opt Options) Result {
 	switch mode {
 	case "", "plain":
 		return Replay(u, h, dir)
+	case "count":
+		return CountCalls(u, h, dir)
+	case "fault":
+		return ReplayFault(u, h, dir, opt.FaultStep, opt.FaultCall)
+	case "fault-addresses":
+		return FaultAddresses(u, dir, opt.Seed)
 	}
 	return Result{OK: false, Step: -1, Err: "unknown mode " + mode, Sig: "infra"}
 }
